@@ -1,6 +1,6 @@
 (** Extraction of the C12 specification S, the implementation model M and the bit-vector model
     (ExtrOcamlBasic only; Z / nat stay the extracted inductive types). *)
-Require Import H4.DDBvModel H4.DDSpec H4.DDModel H4.DDEofModel.
+Require Import H4.DDBvModel H4.DDSpec H4.DDModel H4.DDEofModel H4.DDDynModel.
 Require Extraction.
 Require ExtrOcamlBasic.
-Extraction "../extract/gen/dd_model.ml" s_run m_run m_empty bv_run_new htpstart_end_off eof_covers.
+Extraction "../extract/gen/dd_model.ml" s_run m_run m_empty bv_run_new htpstart_end_off eof_covers dn_run_new.
